@@ -30,7 +30,8 @@ LEVEL_TEXT = (
     "the filled range has the same origin as the copy destination); (A3) each operator arm passes the arithmetic circuit that "
     "belongs to it on every path, and returns the lowering of a different, synthesised expression only in the listed place "
     "(multiplication by a small constant -> repeated addition) or behind an unsigned-only guard. Two defects of A1 and one of A2 "
-    "were found and repaired.")
+    "were found and repaired."
+    " Also: untyped constant sub-expressions are re-typed with their top node (A9 = C05-S13); the scanner bound of every suffixed literal equals max() of its type (A10); every per-type table of constants gives usize what it gives u32 (A11).")
 LEVEL_NOTE = "Trusted: rustc MIR; the arithmetic circuits themselves (push_addition_circuit etc.) compute what their names say (not decided)."
 EXPLANATION = "Functions analysed: TypedExpr::compile pruned per ExprEnum / Op / UnaryOp variant, compile::extend_to_bits."
 NOT_DECIDED = "bit-exact results of all arithmetic circuits; exactness of the overflow conditions themselves; shift amount boundary"
